@@ -6,6 +6,8 @@ def run(cx):
     A, mutable = R.attrset(cx)
     R.reduce_shape(cx)
     R.eqhash(cx)
+    from ..rules import exits_of
+    exits_of(cx, 'EXITS', ['io.FCSData.__array_finalize__', 'io.FCSData.__reduce__', 'io.FCSData.__setstate__', 'io.FCSFile.__eq__', 'io.FCSFile.__ne__', 'io.FCSFile.__hash__'])
     from . import io_segments
     io_segments.owned_events(cx)
     # two loads are independent of each other and of earlier loads: the reader keeps no module-level state
